@@ -241,12 +241,42 @@ theorem refForeach_sub (visit : Nat → Nat → Int × Bool) (xs : List Nat) (k 
         · simp
         · exact List.mem_cons_of_mem _ (ih _ a ha)
 
+/-- a visit function that removes the visited element: the list represents
+the sequence without it, whatever is then done to the removed element -/
+theorem eraseP_spec (poison : Nat → Nat) {m : M2} {l : Hd} {pre post : List Nat} {n : Nat}
+    (h : IsDL m l (pre ++ n :: post)) :
+    IsDL (eraseP poison m l n).1 (eraseP poison m l n).2 (pre ++ post)
+    ∧ (∀ a, a ∉ l.h :: (pre ++ n :: post) →
+        (eraseP poison m l n).1.nx a = m.nx a ∧ (eraseP poison m l n).1.pv a = m.pv a) := by
+  obtain ⟨e1, e2, e3⟩ := erase_spec h
+  have hn : n ∉ l.h :: (pre ++ post) := (nodup_remove_mid h.nodup).2
+  refine ⟨IsDL.transfer e1 ?_ ?_, ?_⟩
+  · intro a ha; exact upd_other _ _ _ _ (fun e => hn (e ▸ ha))
+  · intro a ha; exact upd_other _ _ _ _ (fun e => hn (e ▸ ha))
+  · intro a ha
+    have han : a ≠ n := fun e => ha (by simp [e])
+    refine ⟨?_, ?_⟩
+    · show upd _ n _ a = _
+      rw [upd_other _ _ _ _ han]
+      refine e2 a (fun e => ha ?_)
+      have := lastOr_mem l.h pre; rw [← e] at this
+      rcases List.mem_cons.mp this with h1 | h1
+      · simp [h1]
+      · simp [h1]
+    · show upd _ n _ a = _
+      rw [upd_other _ _ _ _ han]
+      refine e3 a (fun e => ha ?_)
+      have := headOr_mem l.h post; rw [← e] at this
+      rcases List.mem_cons.mp this with h1 | h1
+      · simp [h1]
+      · simp [h1]
+
 /-- forward traversal: loop invariant.  The list stands as `dn ++ rest`, `c` is
 the first node of `rest` (or the head node), `n` its saved successor. -/
-theorem foreachLoop_fwd (visit : Nat → Nat → Int × Bool) {m : M2} {l : Hd} {dn rest : List Nat}
+theorem foreachLoop_fwd (poison : Nat → Nat) (visit : Nat → Nat → Int × Bool) {m : M2} {l : Hd} {dn rest : List Nat}
     (fuel k : Nat) (acc : List Nat) (c n : Nat)
     (h : IsDL m l (dn ++ rest)) (hc : c = headOr l.h rest) (hn : n = m.nx c) (hf : rest.length < fuel) :
-    let r := foreachLoop true visit fuel m l c n k acc
+    let r := foreachLoop poison true visit fuel m l c n k acc
     let ref := refForeach visit rest k
     r.2.2.1 = acc.reverse ++ ref.1 ∧ r.2.2.2 = ref.2.1 ∧ IsDL r.1 r.2.1 (dn ++ ref.2.2) ∧ r.2.1.h = l.h
     ∧ (∀ a, a ∉ l.h :: (dn ++ rest) → r.1.nx a = m.nx a ∧ r.1.pv a = m.pv a) := by
@@ -269,31 +299,20 @@ theorem foreachLoop_fwd (visit : Nat → Nat → Int × Bool) {m : M2} {l : Hd} 
       have hn' : n = headOr l.h rs := by rw [hn]; exact hlinks.1
       by_cases hv : (visit k c).2
       · -- the visit unlinks the visited element
-        obtain ⟨e1, e2, e3⟩ := erase_spec h
-        have hfr : ∀ a, a ∉ l.h :: (dn ++ c :: rs) → (erase m l c).1.nx a = m.nx a ∧ (erase m l c).1.pv a = m.pv a := by
-          intro a ha
-          refine ⟨e2 a (fun e => ha ?_), e3 a (fun e => ha ?_)⟩
-          · have := lastOr_mem l.h dn; rw [← e] at this
-            rcases List.mem_cons.mp this with h1 | h1
-            · simp [h1]
-            · simp [h1]
-          · have := headOr_mem l.h rs; rw [← e] at this
-            rcases List.mem_cons.mp this with h1 | h1
-            · simp [h1]
-            · simp [h1]
+        obtain ⟨e1, hfr⟩ := eraseP_spec poison h
         by_cases hr : (visit k c).1 = 0
-        · have hnx : (erase m l c).1.nx n = (erase m l c).1.nx (headOr l.h rs) := by rw [hn']
-          have := ih (m := (erase m l c).1) (l := (erase m l c).2) (dn := dn) f (k + 1) (c :: acc) n
-            ((erase m l c).1.nx n) e1 hn' rfl (by simpa using hf)
+        · have hnx : (eraseP poison m l c).1.nx n = (eraseP poison m l c).1.nx (headOr l.h rs) := by rw [hn']
+          have := ih (m := (eraseP poison m l c).1) (l := (eraseP poison m l c).2) (dn := dn) f (k + 1) (c :: acc) n
+            ((eraseP poison m l c).1.nx n) e1 hn' rfl (by simpa using hf)
           obtain ⟨i1, i2, i3, i4, i5⟩ := this
-          have hstep : foreachLoop true visit (f + 1) m l c n k acc
-              = foreachLoop true visit f (erase m l c).1 (erase m l c).2 n ((erase m l c).1.nx n) (k + 1) (c :: acc) := by
+          have hstep : foreachLoop poison true visit (f + 1) m l c n k acc
+              = foreachLoop poison true visit f (eraseP poison m l c).1 (eraseP poison m l c).2 n ((eraseP poison m l c).1.nx n) (k + 1) (c :: acc) := by
             rw [foreachLoop, if_neg hcl]
             simp [hv, hr]
           simp only [hstep, refForeach, hr, hv, ne_eq, not_true_eq_false, if_false, if_true]
           refine ⟨by simp [i1], i2, i3, i4, ?_⟩
           intro a ha
-          have ha' : a ∉ (erase m l c).2.h :: (dn ++ rs) := fun hm => ha (by
+          have ha' : a ∉ (eraseP poison m l c).2.h :: (dn ++ rs) := fun hm => ha (by
             simp only [List.mem_cons, List.mem_append] at hm ⊢
             rcases hm with h1 | h1 | h1
             · exact Or.inl h1
@@ -301,8 +320,8 @@ theorem foreachLoop_fwd (visit : Nat → Nat → Int × Bool) {m : M2} {l : Hd} 
             · exact Or.inr (Or.inr (Or.inr h1)))
           rw [(i5 a ha').1, (i5 a ha').2]
           exact hfr a ha
-        · have hstep : foreachLoop true visit (f + 1) m l c n k acc
-              = ((erase m l c).1, (erase m l c).2, (c :: acc).reverse, (visit k c).1) := by
+        · have hstep : foreachLoop poison true visit (f + 1) m l c n k acc
+              = ((eraseP poison m l c).1, (eraseP poison m l c).2, (c :: acc).reverse, (visit k c).1) := by
             rw [foreachLoop, if_neg hcl]
             simp [hv, hr]
           simp only [hstep, refForeach, hr, hv, ne_eq, not_false_eq_true, if_true]
@@ -311,15 +330,15 @@ theorem foreachLoop_fwd (visit : Nat → Nat → Int × Bool) {m : M2} {l : Hd} 
         · have h2 : IsDL m l ((dn ++ [c]) ++ rs) := by simpa using h
           have := ih (m := m) (l := l) (dn := dn ++ [c]) f (k + 1) (c :: acc) n (m.nx n) h2 hn' rfl (by simpa using hf)
           obtain ⟨i1, i2, i3, i4, i5⟩ := this
-          have hstep : foreachLoop true visit (f + 1) m l c n k acc
-              = foreachLoop true visit f m l n (m.nx n) (k + 1) (c :: acc) := by
+          have hstep : foreachLoop poison true visit (f + 1) m l c n k acc
+              = foreachLoop poison true visit f m l n (m.nx n) (k + 1) (c :: acc) := by
             rw [foreachLoop, if_neg hcl]
             simp [hv, hr]
           simp only [hstep, refForeach, hr, hv, ne_eq, not_true_eq_false, if_false]
           refine ⟨by simp [i1], i2, by simpa using i3, i4, ?_⟩
           intro a ha
           exact i5 a (by simpa using ha)
-        · have hstep : foreachLoop true visit (f + 1) m l c n k acc
+        · have hstep : foreachLoop poison true visit (f + 1) m l c n k acc
               = (m, l, (c :: acc).reverse, (visit k c).1) := by
             rw [foreachLoop, if_neg hcl]
             simp [hv, hr]
@@ -329,10 +348,10 @@ theorem foreachLoop_fwd (visit : Nat → Nat → Int × Bool) {m : M2} {l : Hd} 
 /-- backward traversal: loop invariant (mirror image of `foreachLoop_fwd`).
 `rr` is the not yet visited part in visiting order (so the list stands as
 `rr.reverse ++ dn`). -/
-theorem foreachLoop_bwd (visit : Nat → Nat → Int × Bool) {m : M2} {l : Hd} {dn rr : List Nat}
+theorem foreachLoop_bwd (poison : Nat → Nat) (visit : Nat → Nat → Int × Bool) {m : M2} {l : Hd} {dn rr : List Nat}
     (fuel k : Nat) (acc : List Nat) (c n : Nat)
     (h : IsDL m l (rr.reverse ++ dn)) (hc : c = headOr l.h rr) (hn : n = m.pv c) (hf : rr.length < fuel) :
-    let r := foreachLoop false visit fuel m l c n k acc
+    let r := foreachLoop poison false visit fuel m l c n k acc
     let ref := refForeach visit rr k
     r.2.2.1 = acc.reverse ++ ref.1 ∧ r.2.2.2 = ref.2.1 ∧ IsDL r.1 r.2.1 (ref.2.2.reverse ++ dn) ∧ r.2.1.h = l.h
     ∧ (∀ a, a ∉ l.h :: (rr.reverse ++ dn) → r.1.nx a = m.nx a ∧ r.1.pv a = m.pv a) := by
@@ -357,31 +376,20 @@ theorem foreachLoop_bwd (visit : Nat → Nat → Int × Bool) {m : M2} {l : Hd} 
       have hmem : ∀ a, a ∉ l.h :: ((c :: rs).reverse ++ dn) ↔ a ∉ l.h :: (rs.reverse ++ c :: dn) := by
         intro a; simp
       by_cases hv : (visit k c).2
-      · obtain ⟨e1, e2, e3⟩ := erase_spec h'
-        have hfr : ∀ a, a ∉ l.h :: (rs.reverse ++ c :: dn) → (erase m l c).1.nx a = m.nx a ∧ (erase m l c).1.pv a = m.pv a := by
-          intro a ha
-          refine ⟨e2 a (fun e => ha ?_), e3 a (fun e => ha ?_)⟩
-          · have := lastOr_mem l.h rs.reverse; rw [← e] at this
-            rcases List.mem_cons.mp this with h1 | h1
-            · simp [h1]
-            · simp only [List.mem_cons, List.mem_append]; exact Or.inr (Or.inl h1)
-          · have := headOr_mem l.h dn; rw [← e] at this
-            rcases List.mem_cons.mp this with h1 | h1
-            · simp [h1]
-            · simp [h1]
+      · obtain ⟨e1, hfr⟩ := eraseP_spec poison h'
         by_cases hr : (visit k c).1 = 0
-        · have := ih (m := (erase m l c).1) (l := (erase m l c).2) (dn := dn) f (k + 1) (c :: acc) n
-            ((erase m l c).1.pv n) e1 hn' rfl (by simpa using hf)
+        · have := ih (m := (eraseP poison m l c).1) (l := (eraseP poison m l c).2) (dn := dn) f (k + 1) (c :: acc) n
+            ((eraseP poison m l c).1.pv n) e1 hn' rfl (by simpa using hf)
           obtain ⟨i1, i2, i3, i4, i5⟩ := this
-          have hstep : foreachLoop false visit (f + 1) m l c n k acc
-              = foreachLoop false visit f (erase m l c).1 (erase m l c).2 n ((erase m l c).1.pv n) (k + 1) (c :: acc) := by
+          have hstep : foreachLoop poison false visit (f + 1) m l c n k acc
+              = foreachLoop poison false visit f (eraseP poison m l c).1 (eraseP poison m l c).2 n ((eraseP poison m l c).1.pv n) (k + 1) (c :: acc) := by
             rw [foreachLoop, if_neg hcl]
             simp [hv, hr]
           simp only [hstep, refForeach, hr, hv, ne_eq, not_true_eq_false, if_false, if_true]
           refine ⟨by simp [i1], i2, i3, i4, ?_⟩
           intro a ha
           have ha2 := (hmem a).mp ha
-          have ha' : a ∉ (erase m l c).2.h :: (rs.reverse ++ dn) := fun hm => ha2 (by
+          have ha' : a ∉ (eraseP poison m l c).2.h :: (rs.reverse ++ dn) := fun hm => ha2 (by
             simp only [List.mem_cons, List.mem_append] at hm ⊢
             rcases hm with h1 | h1 | h1
             · exact Or.inl h1
@@ -389,8 +397,8 @@ theorem foreachLoop_bwd (visit : Nat → Nat → Int × Bool) {m : M2} {l : Hd} 
             · exact Or.inr (Or.inr (Or.inr h1)))
           rw [(i5 a ha').1, (i5 a ha').2]
           exact hfr a ha2
-        · have hstep : foreachLoop false visit (f + 1) m l c n k acc
-              = ((erase m l c).1, (erase m l c).2, (c :: acc).reverse, (visit k c).1) := by
+        · have hstep : foreachLoop poison false visit (f + 1) m l c n k acc
+              = ((eraseP poison m l c).1, (eraseP poison m l c).2, (c :: acc).reverse, (visit k c).1) := by
             rw [foreachLoop, if_neg hcl]
             simp [hv, hr]
           simp only [hstep, refForeach, hr, hv, ne_eq, not_false_eq_true, if_true]
@@ -398,15 +406,15 @@ theorem foreachLoop_bwd (visit : Nat → Nat → Int × Bool) {m : M2} {l : Hd} 
       · by_cases hr : (visit k c).1 = 0
         · have := ih (m := m) (l := l) (dn := c :: dn) f (k + 1) (c :: acc) n (m.pv n) h' hn' rfl (by simpa using hf)
           obtain ⟨i1, i2, i3, i4, i5⟩ := this
-          have hstep : foreachLoop false visit (f + 1) m l c n k acc
-              = foreachLoop false visit f m l n (m.pv n) (k + 1) (c :: acc) := by
+          have hstep : foreachLoop poison false visit (f + 1) m l c n k acc
+              = foreachLoop poison false visit f m l n (m.pv n) (k + 1) (c :: acc) := by
             rw [foreachLoop, if_neg hcl]
             simp [hv, hr]
           simp only [hstep, refForeach, hr, hv, ne_eq, not_true_eq_false, if_false]
           refine ⟨by simp [i1], i2, by simpa using i3, i4, ?_⟩
           intro a ha
           exact i5 a ((hmem a).mp ha)
-        · have hstep : foreachLoop false visit (f + 1) m l c n k acc
+        · have hstep : foreachLoop poison false visit (f + 1) m l c n k acc
               = (m, l, (c :: acc).reverse, (visit k c).1) := by
             rw [foreachLoop, if_neg hcl]
             simp [hv, hr]
@@ -420,19 +428,19 @@ first non-zero visit result; the visit function may unlink the visited
 element, and the list then represents the sequence without the unlinked
 elements. -/
 theorem foreach_spec {m : M2} {l : Hd} {xs : List Nat} (h : IsDL m l xs) (fwd : Bool)
-    (visit : Nat → Nat → Int × Bool) :
-    let r := foreach m l fwd visit
+    (visit : Nat → Nat → Int × Bool) (poison : Nat → Nat := fun _ => 0) :
+    let r := foreach m l fwd visit poison
     let ref := refForeach visit (if fwd then xs else xs.reverse) 0
     r.2.2.1 = ref.1 ∧ r.2.2.2 = ref.2.1
     ∧ IsDL r.1 r.2.1 (if fwd then ref.2.2 else ref.2.2.reverse) ∧ r.2.1.h = l.h
     ∧ (∀ a, a ∉ l.h :: xs → r.1.nx a = m.nx a ∧ r.1.pv a = m.pv a) := by
   cases fwd with
   | true =>
-    have := foreachLoop_fwd visit (dn := []) (rest := xs) (l.size + 1) 0 [] (m.nx l.h) (m.nx (m.nx l.h))
+    have := foreachLoop_fwd poison visit (dn := []) (rest := xs) (l.size + 1) 0 [] (m.nx l.h) (m.nx (m.nx l.h))
       (by simpa using h) h.head_links.1 rfl (by rw [h.size]; omega)
     simpa [foreach] using this
   | false =>
-    have := foreachLoop_bwd visit (dn := []) (rr := xs.reverse) (l.size + 1) 0 [] (m.pv l.h) (m.pv (m.pv l.h))
+    have := foreachLoop_bwd poison visit (dn := []) (rr := xs.reverse) (l.size + 1) 0 [] (m.pv l.h) (m.pv (m.pv l.h))
       (by simpa using h) (by rw [h.head_links.2, headOr_reverse]) rfl (by rw [h.size]; simp)
     simpa [foreach] using this
 
@@ -1583,10 +1591,10 @@ theorem step_refines {n : Nat} {ha : Nat → Nat} {s : St} {q : Nat → List Nat
   | back l =>
     have hl : l < n := hen
     exact ⟨s, by simp [step, refStep, back_spec (A.sl l hl)], A⟩
-  | foreach l fwd visit =>
+  | foreach l fwd visit poison =>
     have hl : l < n := hen
     have hsl := A.sl l hl
-    obtain ⟨f1, f2, f3, f4, f5⟩ := foreach_spec hsl fwd visit
+    obtain ⟨f1, f2, f3, f4, f5⟩ := foreach_spec hsl fwd visit poison
     refine ⟨_, by simp [step, refStep, f1, f2], A.update1 hl f3 (f4.trans (A.hh l hl)) ?_ ?_⟩
     · intro j hj hjl a ham
       have hn := other hl hj hjl a ham
